@@ -4,6 +4,7 @@ CHECKS = {
     "C02": {"pkg": "checks/c02", "test": "TestC02", "level": "exploration", "shards": 16},
     "C03": {"pkg": "checks/c03", "test": "TestC03", "level": "model_checking", "shards": 16},
     "C04": {"pkg": "checks/c04", "test": "TestC04", "level": "model_checking", "shards": 16},
+    "C05": {"pkg": "checks/c05", "test": "TestC05", "level": "model_checking", "shards": 16},
     "C06": {"pkg": "checks/c06", "test": "TestC06", "level": "model_checking", "shards": 16},
     "C07": {"pkg": "checks/c07", "test": "TestC07", "level": "model_checking", "shards": 16},
     "C08": {"pkg": "checks/c08", "test": "TestC08", "level": "model_checking", "shards": 16},
